@@ -87,3 +87,21 @@ def policy_havoc_then_exact(havoc_calls, invariant):
 def rows_of(res):
     """Stored pseudopressure as list of lists."""
     return [list(r.d) for r in res.pseudopressure.d]
+
+
+class MemoSolve:
+    """Ideal linear solve, memoised: syntactically identical systems (A, b) get the same unknown
+    symbols (sound: the real routine is deterministic), so equal runs produce equal terms."""
+
+    def __init__(self):
+        self.table = {}
+
+    def __call__(self, rec):
+        key = (tuple(tuple(lift(a).p for a in row) for row in rec["A"].rows), tuple(lift(v).p for v in rec["b"]))
+        hit = self.table.get(key)
+        if hit is not None:
+            rec["x"][:] = hit
+            return 0
+        self.table[key] = list(rec["x"])
+        SS.exact_solve(rec)
+        return 0
